@@ -64,9 +64,7 @@ def one_case(ctx, e, rng, ci):
         goal = r.choice(["M", "M", "N", "Y"])
         include_bad = r.random() < 0.3
         size_gib = r.choice([None, None, 0.5, 1, 2.5]) if goal != "Y" else None
-        targets = [r.choice(ix.groups)] if r.random() < 0.35 else []
-        if targets and r.random() < 0.3:
-            targets.append(r.choice(ix.groups))
+        targets = r.sample(ix.groups, k=min(len(ix.groups), r.choice([1, 1, 2, 3, 4]))) if r.random() < 0.45 else []
         days = r.choice([2, 5, 20]) if r.random() < 0.25 else None
         argv = ["node", "clean", node.name, "--force", "--archive-ok"] + argv_filters
         argv += {"M": [], "N": ["--now"], "Y": ["--cancel"]}[goal]
@@ -129,7 +127,7 @@ def one_case(ctx, e, rng, ci):
                    and q.file_id in keep]
             res.update(argv=argv, expected=("req-cancel", None, exp), model_line=None)
         else:
-            targets = [r.choice(ix.groups)] if r.random() < 0.3 else []
+            targets = r.sample(ix.groups, k=min(len(ix.groups), r.choice([1, 2, 3]))) if r.random() < 0.35 else []
             argv = (["group", "sync", group.name, node.name] if kind == "group sync" else ["node", "sync", node.name, group.name]) + \
                 ["--force"] + argv_filters
             for g in targets:
